@@ -15,9 +15,11 @@
 //! Non-termination is detected deterministically: a counting global allocator (this binary only)
 //! watches every call under test; a call that performs more than `BUDGET` heap allocations (a
 //! terminating call on these inputs needs a few dozen) is declared non-terminating. Line calls
-//! run on a runner thread inside the worker: when the budget is exceeded the allocator parks that
-//! thread for good and the worker carries on with a fresh runner (a worker process is expensive to
-//! restart and thousands of lines loop). Cell calls run inline: exceeding the budget exits the
+//! run on a runner thread inside the worker: when the budget is exceeded the allocator never
+//! returns to the looping call — it reports the fact and goes on serving the next jobs from that
+//! very frame (the looping call stays suspended below it for good); after `MAX_DEPTH` such
+//! suspended calls the thread is parked and a fresh runner is started (a worker process is
+//! expensive to restart and thousands of lines loop). Cell calls run inline: exceeding the budget exits the
 //! worker with a code naming the entry point, which the process driver attributes to the item.
 //! The driver's wall-clock watchdog stays armed as a backstop for a loop that does not allocate.
 //! `--replay` re-executes the single item with a 1000× larger budget.
@@ -34,7 +36,7 @@ use serde_json::{json, Value};
 use std::alloc::{GlobalAlloc, Layout, System};
 use std::io::Write as _;
 use std::cell::Cell as StdCell;
-use std::sync::atomic::{AtomicBool, AtomicU64, AtomicUsize, Ordering};
+use std::sync::atomic::{AtomicU64, AtomicUsize, Ordering};
 use std::sync::mpsc;
 use std::sync::Mutex;
 use std::time::Duration;
@@ -60,15 +62,21 @@ const BUDGET: u64 = 20_000;
 
 static LIMIT: AtomicU64 = AtomicU64::new(BUDGET);
 static STAGE: AtomicUsize = AtomicUsize::new(0);
-/// Set by a runner thread whose call exceeded the budget (it then parks forever).
-static EXCEEDED: AtomicBool = AtomicBool::new(false);
+/// Set by a runner thread whose call exceeded the budget: 1 = it keeps serving jobs (nested),
+/// 2 = it parked for good and a new runner thread is needed.
+static EXCEEDED: AtomicUsize = AtomicUsize::new(0);
+/// Suspended (never resumed) calls stacked on one runner thread before it is retired.
+const MAX_DEPTH: usize = 100;
 const EXIT_BASE: i32 = 100;
 
 thread_local! {
     static ARMED: StdCell<bool> = const { StdCell::new(false) };
     static COUNT: StdCell<u64> = const { StdCell::new(0) };
-    /// Runner threads park on an exceeded budget; any other thread exits the process.
+    /// Runner threads survive an exceeded budget; any other thread exits the process.
     static PARK: StdCell<bool> = const { StdCell::new(false) };
+    static DEPTH: StdCell<usize> = const { StdCell::new(0) };
+    /// The runner thread's job / result channels (reachable from the nested serving loop).
+    static CHAN: std::cell::RefCell<Option<(mpsc::Receiver<Job>, mpsc::Sender<(usize, LineRes)>)>> = const { std::cell::RefCell::new(None) };
 }
 
 struct Budget;
@@ -89,7 +97,18 @@ fn tick() {
     }
     let _ = ARMED.try_with(|a| a.set(false));
     if PARK.try_with(|p| p.get()).unwrap_or(false) {
-        EXCEEDED.store(true, Ordering::SeqCst);
+        // The call under test is looping. Never return into it: serve further jobs from here.
+        let depth = DEPTH.try_with(|d| {
+            d.set(d.get() + 1);
+            d.get()
+        })
+        .unwrap_or(usize::MAX);
+        if depth < MAX_DEPTH {
+            EXCEEDED.store(1, Ordering::SeqCst);
+            serve();
+        } else {
+            EXCEEDED.store(2, Ordering::SeqCst);
+        }
         loop {
             std::thread::sleep(Duration::from_secs(3600));
         }
@@ -337,9 +356,20 @@ struct Runner {
 }
 static RUNNER: Mutex<Option<Runner>> = Mutex::new(None);
 
-fn runner_main(jobs: mpsc::Receiver<Job>, out: mpsc::Sender<(usize, LineRes)>) {
-    PARK.with(|p| p.set(true));
-    while let Ok(Job { labels, w, d }) = jobs.recv() {
+/// Serve line jobs on the current (runner) thread until the job channel closes.
+fn serve() {
+    loop {
+        let job = CHAN.with(|c| c.borrow().as_ref().map(|(jobs, _)| jobs.recv()));
+        let Some(Ok(Job { labels, w, d })) = job else {
+            return;
+        };
+        let send = |m: (usize, LineRes)| {
+            CHAN.with(|c| {
+                if let Some((_, out)) = c.borrow().as_ref() {
+                    let _ = out.send(m);
+                }
+            })
+        };
         let line = mk_line(&labels);
         let d = d.as_str();
         let r = guarded(8, || {
@@ -347,17 +377,23 @@ fn runner_main(jobs: mpsc::Receiver<Job>, out: mpsc::Sender<(usize, LineRes)>) {
             Line::truncate(&mut l, w, d);
             l
         });
-        let _ = out.send((8, r.map(|l| line_text(&l)).map_err(|c| site_of(&c))));
+        send((8, r.map(|l| line_text(&l)).map_err(|c| site_of(&c))));
         let r = guarded(9, || <Line as Cell>::truncate(&line, w, d));
-        let _ = out.send((9, r.map(|l| line_text(&l)).map_err(|c| site_of(&c))));
+        send((9, r.map(|l| line_text(&l)).map_err(|c| site_of(&c))));
         let filled = Filled { item: line.clone(), color: Color::Unset };
         let r = guarded(10, || Cell::truncate(&filled, w, d));
-        let _ = out.send((10, r.map(|l: Line| line_text(&l)).map_err(|c| site_of(&c))));
+        send((10, r.map(|l: Line| line_text(&l)).map_err(|c| site_of(&c))));
     }
 }
 
+fn runner_main(jobs: mpsc::Receiver<Job>, out: mpsc::Sender<(usize, LineRes)>) {
+    PARK.with(|p| p.set(true));
+    CHAN.with(|c| *c.borrow_mut() = Some((jobs, out)));
+    serve();
+}
+
 /// The three line entry points on the runner thread. Returns the results that arrived and, if a
-/// call exceeded the allocation budget, the stage that did (its thread is abandoned, parked).
+/// call exceeded the allocation budget, the stage that did (that call is never resumed).
 fn run_line(labels: &[String], w: usize, d: &str) -> (Vec<(usize, LineRes)>, Option<usize>) {
     let mut guard = RUNNER.lock().unwrap();
     if guard.is_none() {
@@ -365,7 +401,7 @@ fn run_line(labels: &[String], w: usize, d: &str) -> (Vec<(usize, LineRes)>, Opt
         let (rtx, rrx) = mpsc::channel();
         std::thread::Builder::new()
             .name("c26-runner".into())
-            .stack_size(512 << 10)
+            .stack_size(8 << 20)
             .spawn(move || runner_main(jrx, rtx))
             .unwrap_or_else(|e| mcx::report::machinery(&format!("cannot spawn runner thread: {e}")));
         *guard = Some(Runner { tx: jtx, rx: rrx });
@@ -384,9 +420,12 @@ fn run_line(labels: &[String], w: usize, d: &str) -> (Vec<(usize, LineRes)>, Opt
                 }
             }
             Err(mpsc::RecvTimeoutError::Timeout) => {
-                if EXCEEDED.swap(false, Ordering::SeqCst) {
+                let e = EXCEEDED.swap(0, Ordering::SeqCst);
+                if e != 0 {
                     let stage = STAGE.load(Ordering::Relaxed);
-                    *guard = None; // the parked thread never comes back
+                    if e == 2 {
+                        *guard = None; // that thread is parked for good; start a fresh one next time
+                    }
                     return (out, Some(stage));
                 }
             }
@@ -485,6 +524,9 @@ fn eval_line(labels: &[String], w: usize, d: &str, cost: u64) -> ItemOut {
 // ---------------------------------------------------------------------------------------------
 
 fn crash_violation(wit: Value, what_input: String, crash: Crash, tail: &str, budget: u64, cost: u64) -> Violation {
+    if let Some(pos) = tail.find("MACHINERY-ERROR") {
+        mcx::report::machinery(&format!("worker failed on {what_input}: {}", tail[pos..].lines().next().unwrap_or("")));
+    }
     // budget exceeded on a non-runner thread: the worker exited with a code naming the stage
     let by_code = match crash {
         Crash::Abort { code: Some(c), .. } if c >= EXIT_BASE && ((c - EXIT_BASE) as usize) < STAGES.len() => Some(STAGES[(c - EXIT_BASE) as usize].to_string()),
